@@ -43,6 +43,8 @@ void vz_hash_u(uint64_t v);
 void vz_nontrivial(void);                /* mark case non-trivial for the running property */
 void vz_inconclusive(const char *why) __attribute__((noreturn));
 void vz_finish(void) __attribute__((noreturn));  /* write OK record and _exit(0) */
+const char *vz_scratch_dir(void);        /* per-case scratch directory (created on first use, removed at the end) */
+void vz_scratch_cleanup(void);
 extern int vz_res_fd;                    /* descriptor the result record is written to */
 extern int vz_verbose;                   /* dump log into the record */
 
